@@ -26,6 +26,40 @@ ASSUMPTIONS = ["a configured-address read of an unused address comes back "
 E = "ebpfcat.ethercat."
 
 
+def monotone(chk, repo):
+    """R25.7: 'an address once handed out is never handed out again' - the
+    set of used addresses only grows.  Nothing in the package removes an
+    element or replaces the set."""
+    chk.doc("R25.7", "the set of used addresses only grows")
+    bad = []
+    n = 0
+    for m in repo.production_modules():
+        for x in ast.walk(m.tree):
+            if isinstance(x, ast.Attribute) and x.attr == "used_addresses":
+                n += 1
+                par = getattr(x, "_parent", None)
+                if isinstance(par, ast.Attribute) and par.attr in (
+                        "discard", "remove", "clear", "pop",
+                        "difference_update", "intersection_update",
+                        "symmetric_difference_update"):
+                    bad.append((par, f".{par.attr}()"))
+                if isinstance(x.ctx, (ast.Store, ast.Del)):
+                    f_ = repo.enclosing_function(x)
+                    if f_ is None or f_.name != "__init__":
+                        bad.append((x, "is re-bound"))
+                if isinstance(par, ast.AugAssign) and par.target is x and \
+                        not isinstance(par.op, ast.BitOr):
+                    bad.append((par, "is reduced in place"))
+    chk.floor("R25.7", "uses of used_addresses", n, 3)
+    chk.ob("R25.7", E + "EtherCat", "no address is ever taken out of "
+           "used_addresses", not bad, bad[0][0] if bad else None,
+           (f"used_addresses {bad[0][1]} in "
+            f"{repo.where(bad[0][0])}: a released address is drawn again "
+            f"and probed as free while the terminal that was given it "
+            f"still answers to it (or comes back later)") if bad else
+           f"{n} uses: created in __init__, tested, added to")
+
+
 def run(chk, repo):
     chk.doc("R25.6", "the set of used addresses is per master")
     per_instance_rule(chk, repo, "R25.6", ["ebpfcat.ethercat.EtherCat"], "bookkeeping of one bus "
@@ -35,6 +69,12 @@ def run(chk, repo):
     chk.doc("R25.3", "configured range")
     chk.doc("R25.4", "writers of the station address")
     chk.doc("R25.5", "EtherCatError means 'not processed'")
+    from . import c12
+    c12.frame_answers(chk, repo, "R25.5")
+    chk.doc("R12.2", "a probe is answered with the bytes of its own "
+                     "datagram (shared with C12)")
+    c12.r2(chk, repo)
+    monotone(chk, repo)
     sym = E + "EtherCat.find_free_address"
     f = repo.func(sym)
     chk.analysed(sym)
